@@ -3,7 +3,6 @@ package main
 // Symbolic executor: expressions and locations.
 
 import (
-	"fmt"
 	"go/ast"
 	"go/constant"
 	"go/token"
@@ -387,7 +386,7 @@ func (fr *Frame) evalLoc(st *State, x ast.Expr) *Loc {
 			if isStructVal(v.Type()) {
 				return &Loc{Kind: LObj, Ref: ref, T: v.Type()}
 			}
-			return &Loc{Kind: LGlobal, Key: "box$" + v.Name() + fmt.Sprint(v.Pos()), T: v.Type()}
+			return e.cellLoc(ref, v.Type())
 		}
 		return &Loc{Kind: LVar, V: v, T: v.Type()}
 	case *ast.SelectorExpr:
@@ -439,8 +438,8 @@ func (fr *Frame) evalLoc(st *State, x ast.Expr) *Loc {
 		if isStructVal(el) {
 			return &Loc{Kind: LObj, Ref: p, T: el}
 		}
-		// pointer to scalar: one heap cell array per pointee type
-		return &Loc{Kind: LIndex, Base: &Loc{Kind: LGlobal, Key: "cell:" + el.String(), T: types.NewArray(el, 0)}, Idx: p, T: el}
+		// pointer to scalar: one heap cell array per pointee sort
+		return e.cellLoc(p, el)
 	case *ast.CallExpr, *ast.CompositeLit, *ast.TypeAssertExpr, *ast.SliceExpr:
 		return fr.tempLoc(st, x)
 	}
@@ -545,7 +544,7 @@ func (fr *Frame) evalAddrOf(st *State, x *ast.UnaryExpr) *Term {
 		if isStructVal(t) {
 			e.storeObj(st, ref, t, v)
 		} else {
-			e.store(st, &Loc{Kind: LIndex, Base: &Loc{Kind: LGlobal, Key: "cell:" + t.String(), T: types.NewArray(t, 0)}, Idx: ref, T: t}, v)
+			e.store(st, e.cellLoc(ref, t), v)
 		}
 		return ref
 	case *ast.Ident:
@@ -553,8 +552,8 @@ func (fr *Frame) evalAddrOf(st *State, x *ast.UnaryExpr) *Term {
 		if l.Kind == LObj {
 			return l.Ref
 		}
-		if l.Kind == LGlobal && strings.HasPrefix(l.Key, "box$") {
-			return st.vars[fr.info.ObjectOf(y).(*types.Var)]
+		if v, ok := fr.info.ObjectOf(y).(*types.Var); ok && (fr.top.fn.boxed[v] || fr.fn.boxed[v]) {
+			return st.vars[v]
 		}
 		fr.unsupported(x, "address of unboxed variable %s", y.Name)
 	case *ast.SelectorExpr:
